@@ -4,6 +4,16 @@ Random histories of construct / mutate / parse / dump / load / set-endian / add-
 objects that define same-named types with equal field counts (shared code templates) and several live instances.  After
 every step every *other* object is observed and compared with what it showed before the step; parsing is compared with
 a freshly created universe (same definitions, same endianness) so that it cannot depend on history.
+
+Purity histories (harness/s6_c14.py): 2-3 cstruct objects load textually identical structures (array counts such as
+`(n & 3) * SCALE`, `n + sizeof(hdr)`, `SIZE`; bit-field runs; fixed / null-terminated arrays of packed scalars) on top of
+object-specific `#define`s, a `len_t` typedef and a `struct hdr` that differ between the objects.  The histories mix loads,
+`cs.endian` changes, good parses, failing parses (truncated at random cuts and, in a sweep, at every cut point — so also inside
+bit-field units — each followed by a valid parse), dumps of scalars / arrays / structures and default constructions, compiled
+and interpreted.  Every observation, and after every step a fixed valid probe parse of every loaded type of every object, is
+compared with (a) a brand-new object configured identically that performs only that operation and (b) the independent
+reference interpreter `refimpl` given the object's own constants / typedefs — the latter also exposes state shared by all
+objects of the process.
 """
 from __future__ import annotations
 
@@ -25,6 +35,9 @@ def run(env) -> Result:
                 "field, mutate array element in place, mutate nested structure in place, parse (good and truncated input), dump, load more "
                 "definitions, set endianness, add alias, define anonymous structures. After each operation all other instances, the defaults "
                 "of all classes and a reference parse per class are compared with their state before the operation / with a fresh universe. "
+                "Purity histories (s6_c14): objects that share definition text but not constants / typedefs / sizeof targets; loads, endianness "
+                "changes, good and failing parses (every cut point), scalar / array / structure dumps; each observation and a probe parse of every "
+                "type after every step compared with a fresh identically configured object and with the reference interpreter. "
                 "distinct = (history prefix); non-trivial = history of >= 3 operations")
     dc = impl.dc()
     rnd = mkrng(env["seed"], "c14")
@@ -161,7 +174,7 @@ def run(env) -> Result:
                     viol(f"parsing with cs{j} changed after an operation on another object ({history[-1]})", cd)
             before = after
     # purity histories over cstruct objects that share definition text but not constants / typedefs (see s6_c14)
-    s6_c14.run(env, res, viol, mkrng(env["seed"], "c14:s6"), 14 if tier == "quick" else 400)
+    s6_c14.run(env, res, viol, mkrng(env["seed"], "c14:s6"), 24 if tier == "quick" else 400)
     res.sample({"history_example": "construct@cs0, inplace-array@cs0/inst0, construct@cs0, endian@cs1, parse@cs1, ..."})
     return res
 
